@@ -1,14 +1,16 @@
 #!/bin/bash
-# Offline setup: build every Lean property module and model driver, and the native code from /repo.
-set -e
+# Offline setup: build the Lean property modules and model drivers of every claimed check, and the native code from /repo.
+# A module that fails to build is reported by its own check (exit 1/2), so setup goes on.
 cd "$(dirname "$0")"
+ids=$(python3 -c "import json; print(' '.join(c['property_id'] for c in json.load(open('MANIFEST.json'))['checks']))")
 cd lean
-mods=$(ls HydroVerif/Props/*.lean | sed 's#/#.#g; s#\.lean$##')
-drivers=$(ls Drivers/*.lean | sed 's#Drivers/#driver_#; s#\.lean$##')
-lake build $mods $drivers
+for id in $ids; do
+  lake build HydroVerif.Props.$id driver_$id || echo "setup: build of $id failed"
+done
 cd ..
 /venv/bin/python -c "
 import sys; sys.path.insert(0, '.')
 from harness import common as C
 print(C.native_build())
-"
+" || echo "setup: native build failed"
+exit 0
